@@ -38,6 +38,7 @@ EXP = {
     'ULA': lambda cb=None: EX.ULA(_gauss_target(), scale=0.05, callback=cb),
     'MALA': lambda cb=None: EX.MALA(_gauss_target(), scale=0.3, callback=cb),
     'NUTS': lambda cb=None: EX.NUTS(_gauss_target(), max_depth=4, callback=cb),
+    'NUTS(step_size)': lambda cb=None: EX.NUTS(_gauss_target(), max_depth=4, step_size=0.05, callback=cb),      # option given, then adapted by warm-up
     'LinearRTO': lambda cb=None: EX.LinearRTO(_posterior(), callback=cb),
     'UGLA': lambda cb=None: EX.UGLA(_lmrf_posterior(), callback=cb),
 }
@@ -46,11 +47,11 @@ EXP = {
 def _chain(s): return np.array(s._samples)
 
 
-def split_continuity(c, name, N=4, M=3, warm=0):
+def split_continuity(c, name, N=4, M=3, warm=0, tune_freq=None):
     seed = int(c.real('seed', lo=0, hi=10 ** 6))
     def run(parts):
         np.random.seed(seed); s = EXP[name]()
-        if warm: s.warmup(warm)
+        if warm: s.warmup(warm) if tune_freq is None else s.warmup(warm, tune_freq=tune_freq)
         for p in parts: s.sample(p)
         return _chain(s)
     a, b = run([N + M]), run([N, M])
@@ -81,6 +82,23 @@ def resume(c, name, via, k=2, warm=6, N=5):
     got = _chain(s2)
     c.holds('resumed_run_makes_as_many_transitions_as_the_uninterrupted_run', len(got) == len(ref) == N - k, note=f"{len(got)} {len(ref)}")
     if N - k: c.eq('resumed_run_makes_the_transitions_of_the_uninterrupted_run', got, ref, tol=1e-12)
+
+
+def batches_on_disk(c, name, N=5, batch=2):
+    """sample(N, batch_size=b): the batch files, concatenated in order, are the recorded chain - all N states, also when b does not divide N"""
+    import glob
+    seed = int(c.real('seed', lo=0, hi=10 ** 6)); np.random.seed(seed)
+    d = tempfile.mkdtemp(dir=os.environ.get('TMPDIR'))
+    try:
+        s = EXP[name](); s.sample(N, batch_size=batch, sample_path=d)
+        files = sorted(glob.glob(os.path.join(d, 'batch_*.npz')))
+        parts = [np.load(f)['samples'] for f in files]
+        disk = np.concatenate(parts, axis=0) if parts else np.zeros((0,))
+        c.holds('every_state_of_the_chain_reaches_the_disk', len(disk) == N, note=f"{len(disk)} of {N} states in {len(files)} files")
+        if len(disk) == N: c.eq('batches_in_order_are_the_chain', disk, _chain(s), tol=0)
+    finally:
+        for f in glob.glob(os.path.join(d, '*')): os.remove(f)
+        os.rmdir(d)
 
 
 def recording(c, name, N=5, warm=3):
@@ -231,11 +249,17 @@ def jobs(tier):
     for name in EXP:
         J.append(Job(f'experimental.{name}:split_continuity', lambda c, n=name: split_continuity(c, n), 'B', FL, nnum=2))
         J.append(Job(f'experimental.{name}:split_continuity_after_warmup', lambda c, n=name: split_continuity(c, n, 3, 2, 5), 'B', FL, nnum=2))
+        if name in ('MH', 'CWMH', 'NUTS') or not q:
+            for tf in (0.5, 1.0):
+                J.append(Job(f'experimental.{name}:split_continuity_after_warmup:tune_freq={tf}', lambda c, n=name, tf=tf: split_continuity(c, n, 3, 2, 6, tf), 'B', FL, nnum=1))
         for via in ('state', 'file'):
             for k in ((0, 2) if q else (0, 1, 2, 4, 5)):
                 J.append(Job(f'experimental.{name}:resume_via_{via}:checkpoint_at={k}', lambda c, n=name, v=via, k=k: resume(c, n, v, k), 'B', FL, nnum=2))
         J.append(Job(f'experimental.{name}:recording_and_callback', lambda c, n=name: recording(c, n), 'B', FL, nnum=2))
         J.append(Job(f'experimental.{name}:reinitialize', lambda c, n=name: reinit(c, n), 'B', FL, nnum=1))
+    for name in ('MH', 'LinearRTO'):
+        for (N_, b_) in ((5, 2), (4, 2), (3, 5)):
+            J.append(Job(f'experimental.{name}:batches_on_disk:N={N_}:batch_size={b_}', lambda c, n=name, N_=N_, b_=b_: batches_on_disk(c, n, N_, b_), 'B', FL + [f'{SM}:_BatchHandler.add_sample', f'{SM}:_BatchHandler.flush'], nnum=1))
     for name in ('MH', 'PCN', 'MALA', 'ULA') + (() if q else ('CWMH',)):       # CWMH: 2 components x 2-3 transitions = several hundred paths (thorough tier)
         mod = {'MH': '_mh:MH', 'PCN': '_pcn:PCN', 'MALA': '_langevin_algorithm:MALA', 'ULA': '_langevin_algorithm:ULA', 'CWMH': '_cwmh:CWMH'}[name]
         J.append(Job(f'experimental.{name}:symbolic:resume_in_fresh_sampler_after_tuning', lambda c, n=name: sym_resume(c, n), 'Pbox',
